@@ -573,16 +573,19 @@ def mutate_case(rng, case):
 CLAIMED = True
 LEVEL_TEXT = ("Theorems: for every module of the structural subset (guard in_subset; assigns, primitive instances with expression and repeated "
               "operands, blackbox instances) and every reserved set containing the identifiers of the text, whenever the reader model succeeds: "
-              "name, inputs and outputs are the declared ones, every consistent valuation of the returned circuit satisfies every assignment "
+              "name, inputs and outputs are the declared ones; every consistent valuation of the returned circuit satisfies every assignment "
               "and primitive instance of the module (C02_read_denotes_sound) and, conversely, every model of the module is the restriction of a "
-              "consistent valuation of the circuit (C02_read_denotes_conv; together C02_read_denotes); for all expression trees the created "
-              "gates carry the Verilog value (ternary as mux, parity cancellation); the grammar's rule table is regenerated from verilog.lark on "
-              "every run and proved equal to the table of the stratified tree type, for which print/parse is proved for all trees; a port list "
-              "that disagrees with the declarations gives an error. Success of the read, the registry and the pin attachment of blackbox "
-              "instances are decided per generated module by the Coq specification (direct evaluation of the AST against evalc of the "
+              "consistent valuation of the circuit (C02_read_denotes_conv; together C02_read_denotes); the registry is the list of instances "
+              "of the text and every pin of every instance is attached to the net (or expression node) named in the instantiation, open pins "
+              "unattached (C02_read_bb_pins). For blackbox-free modules whose net identifiers are usable node names and whose outputs are "
+              "inputs or driven, the reader model succeeds (C02_read_succeeds_bbfree, C02_read_denotes_full_bbfree). For all expression trees "
+              "the created gates carry the Verilog value (ternary as mux, parity cancellation); the grammar's rule table is regenerated from "
+              "verilog.lark on every run and proved equal to the table of the stratified tree type, for which print/parse is proved for all "
+              "trees; a port list that disagrees with the declarations gives an error. Success of the read for modules with blackbox "
+              "instances is decided per generated module by the Coq specification (direct evaluation of the AST against evalc of the "
               "returned circuit, all valuations).")
 LEVEL_NOTE = ("Trusted: Coq kernel + vm_compute, std++, Lark's LALR engine and lexer (white space, comments, escaped identifiers, keyword vs "
               "identifier are validated by rendering ASTs to text, not modelled), the module-extraction regex of io.verilog_to_circuit, "
-              "translator shape for verilog.lark, harness renderer. C02_read_denotes_full (adds success of the read, registry, pins) is stated "
-              "and validated per case.")
+              "translator shape for verilog.lark, harness renderer. C02_read_denotes_full (adds success of the read for modules with "
+              "blackbox instances) is stated and validated per case.")
 TECHNIQUE = "Coq proof (transformer invariant, print/parse) + regenerated grammar table + vm_compute correspondence and oracle"
